@@ -65,6 +65,7 @@ class Profile:
         self.hdr_variants = False
         self.pin_origin = True          # always give file_set_number and creation_time
         self.upper_names = False        # names restricted to [A-Z0-9_-]+
+        self.full_attrs = False         # channel dimension/element_limit/axis and all frame attributes too
         for k, v in kw.items():
             if not hasattr(self, k):
                 raise AttributeError(k)
@@ -234,11 +235,11 @@ def draw_attr_value(draw, a, g, op=None):
         return draw(st.sampled_from([0, 1, True, False])), True
     if k in ('ref', 'anyref', 'reftext'):
         if k == 'reftext' and draw(st.booleans()):
-            return draw_text(draw, p), True
+            return draw_text(draw, p) or 'L', True      # an empty long name means "not given"
         cands = g.candidates(a.targets)
         if not cands:
             if k == 'reftext':
-                return draw_text(draw, p), True
+                return draw_text(draw, p) or 'L', True
             return None, False
         if a.multi:
             n = draw(st.integers(1, min(4, max(1, len(cands)))))
@@ -388,6 +389,19 @@ def draw_frame(draw, g, fidx, rows=None):
         op['attrs'] = draw_attrs(draw, 'channel', g, exclude=('dimension', 'element_limit', 'axis', 'source',
                                                              'minimum_value', 'maximum_value')
                                  if not p.meta_kinds else ('dimension', 'element_limit', 'axis'))
+        if p.full_attrs:
+            dim = list(aj['shape'][1:]) or [1]
+            m = draw(st.integers(0, 3))
+            if m in (1, 3):
+                op['attrs']['dimension'] = {'v': dim, 'r': draw_route(draw, p, False)}
+            if m in (2, 3):
+                el = [d + draw(st.integers(0, 2)) for d in dim] if draw(st.booleans()) else dim
+                op['attrs']['element_limit'] = {'v': el, 'r': draw_route(draw, p, False)}
+            axes = [k for k in g.by_kind.get('axis', [])
+                    if 'coordinates' not in g.ops[k]['attrs']
+                    or len(model.flatten(g.ops[k]['attrs']['coordinates']['v'])) == dim[0]]
+            if axes and draw(st.booleans()):
+                op['attrs']['axis'] = {'v': [{'$ref': draw(st.sampled_from(axes))}], 'r': 'kw'}
         if p.named_sets and draw(st.integers(0, 3)) == 0:
             op['set'] = 'CHSET'
         ch_idx.append(g.add(op))
@@ -396,9 +410,40 @@ def draw_frame(draw, g, fidx, rows=None):
     if indexed:
         it = draw(st.sampled_from(ENUMS['FrameIndexType']))
         fop['attrs']['index_type'] = {'v': it, 'r': 'kw'}
-    extra = draw_attrs(draw, 'frame', g, only=('description', 'encrypted'))
+    extra = draw_attrs(draw, 'frame', g, only=('description', 'encrypted') if not p.full_attrs else
+                       ('description', 'encrypted', 'direction', 'spacing', 'index_min', 'index_max'))
     fop['attrs'].update(extra)
     return g.add(fop)
+
+
+def pick_axes(draw, g, dims):
+    """One axis reference per dimension entry, each with a matching number of coordinates (or none). None if impossible."""
+    refs = []
+    for d in dims:
+        axes = [k for k in g.by_kind.get('axis', [])
+                if 'coordinates' not in g.ops[k]['attrs']
+                or len(model.flatten(g.ops[k]['attrs']['coordinates']['v'])) == d]
+        if not axes:
+            return None
+        refs.append({'$ref': draw(st.sampled_from(axes))})
+    return refs
+
+
+def draw_dimension_and_axis(draw, g, op, dims):
+    p = g.profile
+    if not p.full_attrs:
+        return
+    if dims is None:
+        if draw(st.integers(0, 2)):
+            return
+        dims = [draw(st.integers(1, 4)) for _ in range(draw(st.integers(1, 2)))]
+        op['attrs']['dimension'] = {'v': dims, 'r': draw_route(draw, p, False)}
+    elif draw(st.booleans()):
+        op['attrs']['dimension'] = {'v': dims, 'r': draw_route(draw, p, False)}
+    if draw(st.booleans()):
+        refs = pick_axes(draw, g, dims)
+        if refs:
+            op['attrs']['axis'] = {'v': refs, 'r': 'kw'}
 
 
 # ------------------------------------------------------------------ metadata objects with their inter-attribute rules
@@ -445,6 +490,10 @@ def draw_meta(draw, kind, g):
                 v = [elem() for _ in range(nv)]
             u = draw_units(draw, p)
             op['attrs']['values'] = {'v': v, 'u': u, 'r': draw_route(draw, p, u is not None)}
+            if isinstance(v[0], list):
+                draw_dimension_and_axis(draw, g, op, [len(v[0])])
+        else:
+            draw_dimension_and_axis(draw, g, op, None)
         if kind == 'computation':
             src = g.candidates(ANY)
             if src and draw(st.integers(0, 2)) == 0:
@@ -481,6 +530,8 @@ def draw_meta(draw, kind, g):
                     [[draw(NUMBERS) for _ in range(cols)] for _ in range(n)]
                 u = draw_units(draw, p)
                 op['attrs'][key] = {'v': v, 'u': u, 'r': draw_route(draw, p, u is not None)}
+        if cols:
+            draw_dimension_and_axis(draw, g, op, [cols])
         for key in ('measurement', 'reference'):
             if draw(st.integers(0, 2)) == 0:
                 u = draw_units(draw, p)
@@ -514,7 +565,7 @@ META_ORDER = ['long_name', 'axis', 'zone', 'equipment', 'well_reference_point', 
               'path', 'message', 'comment', 'group', 'no_format']
 
 
-def draw_logical_file(draw, profile, lf_index=0):
+def draw_logical_file(draw, profile, lf_index=0, rows_fixed=None):
     g = GenCtx(profile)
     # origins
     n_or = draw(st.integers(1, profile.max_origins))
@@ -523,11 +574,14 @@ def draw_logical_file(draw, profile, lf_index=0):
     if pos == 'first':
         draw_origin(draw, g, True)
         pending_origins -= 1
+    if profile.full_attrs and 'axis' in profile.meta_kinds:
+        for _ in range(draw(st.integers(0, 2))):
+            draw_meta(draw, 'axis', g)
     # frames with their channels
     nfr = draw(st.integers(1, profile.max_frames))
     frames = []
     for f in range(nfr):
-        frames.append(draw_frame(draw, g, f))
+        frames.append(draw_frame(draw, g, f, rows=rows_fixed))
         if pos == 'middle' and pending_origins == n_or:
             draw_origin(draw, g, True)
             pending_origins -= 1
@@ -650,14 +704,17 @@ def file_specs(draw, profile):
                             'seq': draw(st.integers(0, 9999)),
                             'route': draw(st.sampled_from(['kw', 'obj']))})
     nlf = draw(st.integers(1, profile.max_lfs))
+    w = spec['write']
+    rows_fixed = None
+    if len(profile.sources) > 1 or profile.sources[0] != 'inline':
+        w['source'] = draw(st.sampled_from(list(profile.sources)))
+        if w['source'] == 'struct':
+            rows_fixed = draw(st.integers(1, profile.max_rows))     # a structured array has one row count
     for i in range(nlf):
-        lf = draw_logical_file(draw, profile, i)
+        lf = draw_logical_file(draw, profile, i, rows_fixed)
         if profile.shuffle:
             lf = shuffle_ops(draw, lf)
         spec['lfs'].append(lf)
-    w = spec['write']
-    if len(profile.sources) > 1 or profile.sources[0] != 'inline':
-        w['source'] = draw(st.sampled_from(list(profile.sources)))
     rows = min(min_rows(lf) for lf in spec['lfs'])
     if profile.chunks:
         m = draw(st.integers(0, 4))
